@@ -37,6 +37,7 @@ var c12Mesgs = map[byte][]uint16{
 	32: {55, 55, 55, 103, 23, 49},
 	15: {55, 55, 103, 23},
 	7:  {28, 28, 49},
+	6:  {20, 20, 32, 32, 32, 19, 49}, // course_point: a message whose "timestamp" is field 1 and that has no field 253
 }
 
 func c12Case(c *lib.Ctx, idx uint64) {
@@ -83,7 +84,7 @@ func c12Chain(c *lib.Ctx, idx uint64) {
 }
 
 func c12Plan(rng *lib.Rand, idx uint64) *ref.Plan {
-	fts := []byte{4, 4, 32, 15, 7}
+	fts := []byte{4, 4, 32, 15, 7, 6}
 	ft := fts[idx%uint64(len(fts))]
 	nrec := 10 + rng.Intn(40)
 	if rng.Chance(1, 20) {
